@@ -215,3 +215,37 @@ pub fn dec_twice<S: Src, const P: u8, const N: usize>(s: &mut S) {
     reached!(s, "hist: second decode from the same buffer returned");
     judge::<S, P>(s, &buf[..n], &r2);
 }
+
+/// C09: "the outcome depends on the bytes alone, not on the context's address,
+/// configuration or history" as a 2-safety statement: two unrelated contexts
+/// (own configuration, own cell values) decode the same bytes and must report the
+/// same acceptance, type and payload slice, or the very same error (the reference
+/// decoder only says which errors are *truthful*; this pins the choice among them
+/// to the bytes).
+pub fn dec_two_ctx<S: Src, const P: u8, const N: usize>(s: &mut S) {
+    let c1: Cfg<2, 2> = Cfg::draw(s);
+    let c2: Cfg<1, 1> = Cfg::draw(s);
+    let a: [u8; N] = s.arr();
+    let n = s.usize();
+    s.assume(n <= N);
+    let b = &a[..n];
+    s.assume(!kf::dec_any(b));
+    let x1 = c1.build();
+    let x2 = c2.build();
+    let r1 = x1.decode_packet(b);
+    let r2 = x2.decode_packet(b);
+    reached!(s, "hist: two contexts decoded the same bytes");
+    match (&r1, &r2) {
+        (Ok((t1, p1)), Ok((t2, p2))) => {
+            chk!(s, P, C09, t1 == t2 && p1.len() == p2.len() && core::ptr::eq(p1.as_ptr(), p2.as_ptr()), "two contexts accept the same bytes with the same type and payload slice");
+            cov!(s, P, C09, c1.addr != c2.addr && c1.resp_eid != c2.resp_eid, "hist: differing contexts accept the same packet");
+        }
+        (Err(e1), Err(e2)) => {
+            chk!(s, P, C09, e1 == e2, "two contexts reject the same bytes with the same error");
+            cov!(s, P, C09, n >= 12 && c1.addr != c2.addr, "hist: differing contexts reject the same packet");
+        }
+        _ => {
+            chk!(s, P, C09, false, "two contexts agree on accepting or rejecting the same bytes");
+        }
+    }
+}
